@@ -108,6 +108,49 @@ func (w *Worker) resolveExternal(fn *ssa.Function, name string) extFn {
 	if e, ok := externTable[name]; ok {
 		return func(fr *frame, args []value) value { return e(fr, fn, args) }
 	}
+	// sync/atomic.Pointer[T] (any instantiation): the pointer lives in a side table keyed by the receiver; every
+	// method is a scheduling point
+	if strings.HasPrefix(name, "(*sync/atomic.Pointer[") {
+		switch base {
+		case "Load":
+			return func(fr *frame, a []value) value {
+				fr.in.preemptPoint(fr.g)
+				if v, ok := fr.in.atomicPtrs[a[0].(*value)]; ok {
+					return v
+				}
+				return (*value)(nil)
+			}
+		case "Store":
+			return func(fr *frame, a []value) value {
+				fr.in.preemptPoint(fr.g)
+				fr.in.atomicPtrs[a[0].(*value)] = a[1]
+				return nil
+			}
+		case "Swap":
+			return func(fr *frame, a []value) value {
+				fr.in.preemptPoint(fr.g)
+				old, ok := fr.in.atomicPtrs[a[0].(*value)]
+				fr.in.atomicPtrs[a[0].(*value)] = a[1]
+				if !ok {
+					return (*value)(nil)
+				}
+				return old
+			}
+		case "CompareAndSwap":
+			return func(fr *frame, a []value) value {
+				fr.in.preemptPoint(fr.g)
+				cur, ok := fr.in.atomicPtrs[a[0].(*value)]
+				if !ok {
+					cur = (*value)(nil)
+				}
+				if cur.(*value) == a[1].(*value) {
+					fr.in.atomicPtrs[a[0].(*value)] = a[2]
+					return true
+				}
+				return false
+			}
+		}
+	}
 	switch pp {
 	case "github.com/golang/glog", "log":
 		return noop(fn)
